@@ -63,7 +63,7 @@ CHECKS = {
             "DESIGN.md §4 C11", "E1-stateless"),
     "C12": ("model_checking",
             "explicit-state BFS over timed login/request/logout/clock-advance/restart histories on the real auth handlers under a virtual clock against a throttle automaton and two-sided session bounds, plus preemption-bounded schedule exploration of request || logout || clock tick followed by a restart",
-            "Three BFS passes: throttle only (10 operations, all 6 (maxAttempts, blockDur) configurations, depth 8 quick / 11 thorough), sessions (11 operations, TTL 1 h and 3 d, depth 6 / 9), cross (17 operations, depth 4 / 5); clock steps straddle every boundary by +-1 s; two addresses that are trusted proxies and send spoofed proxy headers; while blocked every login is 429 with Retry-After and creates no session; tokens authenticate before created+TTL and never after logout, expiry or having been seen expired, also across restart (session file). Schedules: request, logout and a midnight-crossing clock tick in all interleavings (<=1-2 preemptions, release points), then restart: a logged-out token never authenticates.",
+            "Three BFS passes plus two stateless throttling enumerations (attempts inside the last second of a block period; 20-2500 other addresses failing while one address is blocked): throttle only (10 operations, all 6 (maxAttempts, blockDur) configurations, depth 8 quick / 11 thorough), sessions (12 operations incl. a request with another spelling of the token, TTL 1 h and 3 d, depth 6 / 9), cross (17 operations, depth 4 / 5); clock steps straddle every boundary by +-1 s; two addresses that are trusted proxies and send spoofed proxy headers; while blocked every login is 429 with Retry-After and creates no session; tokens authenticate before created+TTL and never after logout, expiry or having been seen expired, also across restart (session file). Schedules: request, logout and a midnight-crossing clock tick in all interleavings (<=1-2 preemptions, release points), then restart: a logged-out token never authenticates.",
             "the throttle table is emptied by a restart (the statement does not cover throttling across restarts); Retry-After only checked for presence and range; exact-boundary instants are not judged.",
             "DESIGN.md §4 C12", "E1-BFS+E2"),
     "C13": ("exploration",
